@@ -298,13 +298,13 @@ PROPS["C04"] = {
 PROPS["C02"] = {
     "level": "other",
     "level_text": "Bounded symbolic execution of one outbound operation of the real I/O path (conn.write/writev/open, asyncWrite(v) tasks through the real poller queue, eventloop.write, the real elastic ring+list buffer) from an arbitrary valid outbound-buffer state over a ghost kernel that accepts any prefix; conservation and order of wire++buffer are checked at a free position, LT write-interest and ET re-flush obligations included; the invariant is re-proved (inductive over operation histories).",
-    "level_note": "One operation per harness; <= 2 write(2)/writev(2) calls per event (quick); payload sizes <= 2^31; Writev with 1..2 segments (quick) / 3 (thorough) plus the concrete 1025-segment case; kernel = stub contract (short write => socket buffer full; ET EAGAIN after short write). Eventual drain ('never remains unsent forever') is reduced to the one-step progress/re-arm obligations. Trusted: go/ssa lowering, SSA->SMT translation, z3.",
+    "level_note": "One operation per harness; <= 2 write(2)/writev(2) calls per event (quick); payload sizes <= 2^31; Writev with 1..2 segments plus the concrete 1025-segment case; thorough: 3 write calls per event and an arbitrary outbound-buffer shape in every harness (the configuration with 2 list nodes and 3 segments did not finish in 90 min and is not registered); kernel = stub contract (short write => socket buffer full; ET EAGAIN after short write). Eventual drain ('never remains unsent forever') is reduced to the one-step progress/re-arm obligations. Trusted: go/ssa lowering, SSA->SMT translation, z3.",
     "design_ref": "DESIGN.md section 5 (loop-step family, C02)",
     "explanation": "Real framework code from go/ssa over the ghost kernel.",
     "bounds": {"operations": 1, "writes_per_event": 2, "writev_segments": "1..2 (+1025 concrete)", "sizes": "<= 2^31"},
     "outside": ["real kernel behaviour beyond the stub contract", "multi-goroutine issue order (C03)"],
     "assumptions": ["ghost kernel contract", "pool contracts (C12)"],
-    "units": [dict(_LOOP_COMMON, name="loop-outbound", files=["harness/gnet/vloop_world.go", "harness/gnet/c14_pick.go", "harness/gnet/c02_outbound.go", "harness/gnet/c02_reactor.go"], cfg={"vcfg": {"writes": 2, "nodes": 1, "segs": 2, "any_shape": 0}}, cfg_thorough={"vcfg": {"writes": 3, "nodes": 2, "segs": 3, "any_shape": 1}})],
+    "units": [dict(_LOOP_COMMON, name="loop-outbound", files=["harness/gnet/vloop_world.go", "harness/gnet/c14_pick.go", "harness/gnet/c02_outbound.go", "harness/gnet/c02_reactor.go"], cfg={"vcfg": {"writes": 2, "nodes": 1, "segs": 2, "any_shape": 0}}, cfg_thorough={"vcfg": {"writes": 3, "nodes": 1, "segs": 2, "any_shape": 1}})],
 }
 
 PROPS["C18"] = {
